@@ -78,6 +78,15 @@ def replay_case(arg):
             if not (np.array_equal(vt0, np.broadcast_to(theta, vt0.shape)) and np.array_equal(vt1, np.broadcast_to(theta, vt1.shape))):
                 fail('Unselected', 'zero_identity', None)
             cnt['evaluations'] = cnt.get('evaluations', 0) + 4
+            # representation: the same whole numbers handed over with an INTEGER dtype (covariates halfway between integers,
+            # so that the shifts are not whole numbers) give what they give as floats
+            covs_h = covs + 0.5
+            vt_f = np.asarray(cm.compute_population_parameters(beta.copy(), theta.copy(), covs_h.copy()), dtype=float)
+            vt_i = np.asarray(cm.compute_population_parameters(beta.astype(int), theta.astype(int), covs_h.copy()), dtype=float)
+            vt_l = np.asarray(cm.compute_population_parameters([int(b_) for b_ in beta], theta.astype(int), covs_h.copy()), dtype=float)
+            if vt_i.shape != vt_f.shape or not (np.array_equal(vt_i, vt_f) and np.array_equal(vt_l, vt_f)):
+                fail('Transform', 'integer_parameters_shift_differently', dict(float=vt_f.tolist(), int=vt_i.tolist()))
+            cnt['evaluations'] = cnt.get('evaluations', 0) + 3
         except Exception as e:
             fail('Transform', type(e).__name__, repr(e))
     # ---- the covariate population model against the underlying model ------------------------
